@@ -54,15 +54,19 @@ func newIm0data(pc uint16, d []uint8, base Memory) *im0data {
 }
 
 func (im0 *im0data) Get(addr uint16) uint8 {
-	if addr < im0.start || addr > im0.end {
+	// the offset is computed modulo 65536, so the range test also works when
+	// the data wraps around the end of the address space.
+	off := addr - im0.start
+	if int(off) >= len(im0.data) {
 		// delegate to base Memory for out of range.
 		return im0.base.Get(addr)
 	}
-	return im0.data[addr-im0.start]
+	return im0.data[off]
 }
 
 func (im0 *im0data) Set(addr uint16, value uint8) {
-	if addr >= im0.start && addr <= im0.end {
+	off := addr - im0.start
+	if int(off) < len(im0.data) {
 		// invalid opepration, nothing to do.
 		return
 	}
